@@ -1,7 +1,7 @@
 (* Extraction of the executable model. ExtrOcamlBasic only; N/Z/positive/nat stay inductive. *)
 From Coq Require Extraction ExtrOcamlBasic.
 From Base Require Import PyStr.
-From Model Require Import Wrap RxPort Tags LineWrap Frontmatter.
+From Model Require Import Wrap RxPort Tags LineWrap Frontmatter FsOps.
 
 Extraction Language OCaml.
 Extraction "model.ml"
@@ -13,4 +13,5 @@ Extraction "model.ml"
   line_is_block_content line_is_list_item line_is_table_row is_tag_only_line
   wrap_paragraph_lines_md wrap_paragraph line_wrap_to_width line_wrap_by_sentence
   split_sentences_regex split_markdown_hard_breaks fill_text
-  split_frontmatter fill_markdown_fm.
+  split_frontmatter fill_markdown_fm
+  run_prog target_okb.
